@@ -14,6 +14,7 @@ package main
 //           single kick message makes the stranded backlog appear
 
 import (
+	"context"
 	"fmt"
 	"runtime"
 	"sync"
@@ -44,6 +45,7 @@ func init() {
 				{name: "raw", n: a, perChild: a / 16, parallel: 8, timeout: 30 * time.Minute, env: []string{"VERIF_HOOK=trace", "VERIF_HOOK_PROB=30", "VERIF_HOOK_MAXUS=30"}},
 				{name: "engine", n: b, perChild: b / 16, timeout: 30 * time.Minute, env: []string{"VERIF_HOOK=chaos", "VERIF_HOOK_PROB=30", "VERIF_HOOK_MAXUS=30"}},
 				{name: "crowd", n: b / 20, perChild: (b/20 + 15) / 16, timeout: 30 * time.Minute},
+				{name: "stop-race", n: b / 10, perChild: (b/10 + 15) / 16, timeout: 30 * time.Minute, env: []string{"VERIF_HOOK=chaos", "VERIF_HOOK_PROB=30", "VERIF_HOOK_MAXUS=30"}},
 			}
 		},
 		run: func(c *caseCtx) caseResult {
@@ -52,6 +54,9 @@ func init() {
 			}
 			if c.mode == "crowd" {
 				return c03Crowd(c)
+			}
+			if c.mode == "stop-race" {
+				return c03StopRace(c)
 			}
 			return c03Engine(c)
 		},
@@ -450,5 +455,72 @@ func c03Crowd(c *caseCtx) (res caseResult) {
 	for _, p := range append(pids, opener) {
 		e.Poison(p)
 	}
+	return res
+}
+
+// ---- stop requests are accepted messages too ---------------------------------------
+
+// c03StopRace: an actor gets a few messages and then, timed against the moment it runs out of
+// work, a stop request (Engine.Stop / Poison). The request was accepted by a started actor, so
+// it is processed without any further send: the context becomes done. A request left behind at
+// the worker's running->idle transition shows as a context that becomes done only after a kick.
+func c03StopRace(c *caseCtx) (res caseResult) {
+	r := c.rng
+	wd := watchdog(c.tier)
+	e, err := actor.NewEngine(actor.NewEngineConfig())
+	if err != nil {
+		res.inconclusive("engine: %v", err)
+		return
+	}
+	rounds := 150 + r.Intn(150)
+	res.Desc = fmt.Sprintf("stop-race: %d rounds of {spawn, 1-3 messages, stop request timed against the idle transition}", rounds)
+	for i := 0; i < rounds; i++ {
+		spin := r.Intn(40)
+		var handled int64
+		pid := e.SpawnFunc(func(c *actor.Context) {
+			if _, ok := c.Message().(*tmsg); ok {
+				for k := 0; k < spin*20; k++ {
+					runtime.Gosched()
+				}
+				atomic.AddInt64(&handled, 1)
+			}
+		}, "sr", actor.WithID(fmt.Sprint(i)), actor.WithInboxSize(pick(r, 1, 8, 1024)))
+		k := 1 + r.Intn(3)
+		for j := 0; j < k; j++ {
+			e.Send(pid, &tmsg{Seq: j})
+		}
+		// sweep the delay across the time the actor needs for its messages
+		for d := 0; d < r.Intn(60)*20; d++ {
+			runtime.Gosched()
+		}
+		graceful := r.Intn(3) == 0
+		var ctx context.Context
+		if graceful {
+			ctx = e.Poison(pid)
+		} else {
+			ctx = e.Stop(pid)
+		}
+		select {
+		case <-ctx.Done():
+			continue
+		case <-time.After(10 * time.Second):
+		}
+		// nothing for 10 s. A further message shows whether the request was sitting in an idle inbox
+		rest, where := atRest(2 * time.Second)
+		e.Send(pid, kickMsg{})
+		select {
+		case <-ctx.Done():
+			res.violate("round %d: a stop request (graceful=%v) accepted by a started actor that had just run out of work was not processed for 10 s; it was processed as soon as a further message arrived (left behind at the idle transition) (%s)", i, graceful, res.Desc)
+		case <-time.After(wd / 2):
+			if rest {
+				res.violate("round %d: a stop request (graceful=%v) was never processed, the process is at rest (%s), and a further message changed nothing", i, graceful, where)
+			} else {
+				res.inconclusive("round %d: stop context not done, also after a kick (%s)", i, where)
+			}
+		}
+		return
+	}
+	res.count("stop_races", int64(rounds))
+	res.Sig = sigHash("stop-race", rounds/30)
 	return res
 }
